@@ -1,8 +1,8 @@
 #!/bin/bash
 # Developer tool: run every seeded change under /verif/seeded against its property's quick check
-# (scratch copies; /repo is not touched) and print one line per seed.
+# (scratch copies; /repo is not touched) and print one line per seed. Optional $1: grep filter on the seed id; RS_BIN: checker binary.
 cd /verif
-for d in seeded/*/; do
+for d in $(ls -d seeded/*/ | grep "${1:-.}"); do
   id=$(basename $d); prop=${id%%-*}
   out=$(tools/seedrun.sh $prop $d/patch.diff 2>&1)
   if echo "$out" | grep -q "^VIOLATION property=$prop"; then
